@@ -22,6 +22,8 @@ pub const SITE_REWIND_SAME: u8 = 4;
 pub const SITE_REWIND_NEW: u8 = 5;
 /// Store of the bump pointer in `reset`.
 pub const SITE_RESET: u8 = 6;
+/// Store of the bump pointer through `ChunkFooter::set_ptr` (fast path, dealloc, shrink, same-chunk rewind).
+pub const SITE_SET_PTR: u8 = 7;
 
 /// Signature of the sink: `(footer address, is the shared static empty chunk, site)`.
 pub type Sink = fn(usize, bool, u8);
